@@ -17,7 +17,7 @@ INC = os.path.join(VERIF, 'include')
 CXX_COMMON = ['-std=c++17', '-fno-exceptions', '-fno-rtti', '-fno-access-control', '-fno-threadsafe-statics',
               '-DASMJIT_STATIC', '-DASMJIT_VERIF', '-I' + REPO, '-I' + INC, '-w']
 # Front end only (-disable-llvm-passes): overriding/stubbing happens at link time, *before* any inlining.
-FE_FLAGS = ['-O1', '-Xclang', '-disable-llvm-passes', '-fno-vectorize', '-fno-slp-vectorize', '-fno-unroll-loops']
+FE_FLAGS = ['-O1', '-Xclang', '-disable-llvm-passes', '-fno-pic', '-fno-pie', '-fno-vectorize', '-fno-slp-vectorize', '-fno-unroll-loops']
 UBSAN_TRAP = ['-fsanitize=shift,signed-integer-overflow,integer-divide-by-zero,array-bounds', '-fsanitize-trap=all']
 CBMC_BASE = ['--unwinding-assertions', '--drop-unused-functions', '--no-undefined-shift-check', '--no-signed-overflow-check',
              '--no-malloc-may-fail', '--no-pointer-primitive-check', '--no-built-in-assertions', '--sat-solver', 'cadical', '--verbosity', '6']
